@@ -161,6 +161,29 @@ CLAIMS = {
         "11 proper groups x 3 methods x resolutions, all S2 methods, and the reduced sample of all 38 groups, against "
         "method-specific bounds (1.5 r, 2.2 r, 10 sqrt(r); S2 0.9 r, 5.4 sqrt(r)) measured once on the unchanged tree with "
         ">= 25 % margin and committed as constants."),
+ "C11": dict(category="proof", design_ref="DESIGN.md section 5 C11",
+   technique="Lean 4: model of CrystalMap.__getitem__ proved to refine a set-semantics specification for every grid, mask, key and (by induction) every finite selection history; differential run of random histories",
+   text="A Lean model of CrystalMap.__getitem__, mirrored branch by branch on the is_in_data mask with explicit error cases, "
+        "is proved to refine a set-semantics specification for every grid, mask and key, and by induction every finite "
+        "selection history: the result is a sub-list of the map indexed; every per-point accessor is the original array at "
+        "the ids of the map; the shape is the tight bounding box; get_map_data places each value at its (row, col) with the "
+        "fill value elsewhere; selecting changes nothing in the source; over exact real arithmetic the extents computed from "
+        "coordinates equal the index-level extents for every origin and every positive step. Tie: differential testing only "
+        "- random histories of up to 12 steps compared after every step on all observables, the slice kernel compared "
+        "exhaustively with Python/numpy on small lengths. numpy indexing semantics and float rounding are assumptions. The "
+        "single-point-grid defect is an open known finding."),
+ "C12": dict(category="proof", design_ref="DESIGN.md section 5 C12",
+   technique="Lean 4: invariant of PhaseList / crystal-map phase bookkeeping proved for every constructor input and preserved by every admissible operation along all histories; differential run of random constructions and histories",
+   text="A Lean model of PhaseList and of the phase bookkeeping of CrystalMap (constructor reconciliation, phase_id and "
+        "property setters through selections, add, del, add_not_indexed, sort, phases_in_data) is proved to maintain the "
+        "invariant - ids strictly ascending, every phase id of every point in the list, id -1 iff 'not_indexed', "
+        "phases_in_data exact - after construction for every caller list with distinct ids in which only id -1 is called "
+        "not_indexed, and under every admissible operation along all finite histories (admissibility is an explicit decidable "
+        "guard). Also proved: add rejects duplicate names; getitem by id or name returns exactly the phases asked for; "
+        "assignments through a selection change exactly the selected points; selections leave the source untouched; a "
+        "single-phase selection carries that phase's point group. The pre-fix constructor/phases_in_data are kept as "
+        "definitions with proved counter-examples. Tie: differential testing of random construction inputs and histories. "
+        "Colours and the phases setter are not modelled."),
 }
 REASONS = {}
 checks = []
